@@ -105,6 +105,8 @@ def gen_case(rng, big=False, tie=False):
             for a in range(N):
                 c = rng.choice(centres)
                 pos.append(["%.3f" % (c[k] + rng.uniform(-0.9, 0.9)) for k in range(d)])
+        if config != "line" and rng.random() < 0.25:
+            pos = common.unfold_positions(rng, pos, H, ppp)       # unfolded (xu) coordinates
         frames.append({"H": H, "types": types, "pos": pos})
     return {"d": d, "K": K, "N": N, "T": T, "kind": kind, "ppp": ppp, "box": L, "rdelta": delta, "frames": frames,
             "config": config, "tie": tie, "csv": rng.random() < 0.25, "shear": shear, "relabel": relabel}
